@@ -95,6 +95,12 @@ def _mk_key_classes():
 
 
 KORD, KUN = _mk_key_classes()
+# make the key classes importable as zzv.K<c>o / zzv.K<c>u (pickling of treespecs)
+import types as _types
+_zzv = _types.ModuleType('zzv')
+for _c in list(KORD.values()) + list(KUN.values()):
+    setattr(_zzv, _c.__name__, _c)
+sys.modules['zzv'] = _zzv
 _KEY_CACHE = {}
 
 
@@ -234,11 +240,18 @@ def nt_class(cls, n):
         if cls % 2 == 1:
             base = type(f'NTS{cls}_{n}', (base,), {'__slots__': ()})
         base._verif = (cls, n)
+        base.__module__ = __name__
+        base.__qualname__ = base.__name__
+        globals()[base.__name__] = base          # importable: pickling of treespecs
+        if cls % 2 == 1:
+            b0 = base.__mro__[1]
+            b0.__module__ = __name__
+            globals()[b0.__name__] = b0
         _NT[(cls, n)] = base
     return _NT[(cls, n)]
 
 
-STRUCTSEQ = [os.terminal_size, os.times_result, grp.struct_group, type(sys.thread_info), time.struct_time,
+STRUCTSEQ = [os.terminal_size, os.times_result, grp.struct_group, os.uname_result, time.struct_time,
              pwd.struct_passwd]
 STRUCTSEQ_ARITY = [t.n_sequence_fields for t in STRUCTSEQ]
 
@@ -257,6 +270,8 @@ class CustBase:
 
 NCUST = 6
 CUST = [type(f'Cust{i}', (CustBase,), {}) for i in range(NCUST)]
+for _c in CUST:
+    globals()[_c.__name__] = _c      # importable: pickling of treespecs
 
 
 def cust_flatten(x):
